@@ -300,7 +300,7 @@ def check_split(run, pkg):
     bad = None
     for e in it.events:
         tgt = None
-        if e.kind == "aug":
+        if e.kind == "aug" and not e.data.get("rebind"):
             tgt = e.data["old"]
         elif e.kind == "store" and e.data["target"][0] == "sub":
             tgt = e.data["target"][1]
